@@ -19,7 +19,9 @@ class SimClock(object):
         self.recorded = []
         self.start = 1.6e9 + rnd.randrange(0, 10 ** 8) + rnd.random()
         if mode == "extreme":
-            self.start = rnd.choice([0.0, 2.0 ** 31, -86400.0 * 365, 1e-9, 253402300799.0])
+            # corners of what a time.time() can return today; negative and post-2106 epochs are left out: they are not
+            # readings of a real clock and common consumers (a 32-bit seed, e.g. numpy's RandomState) refuse them
+            self.start = rnd.choice([0.0, 2.0 ** 31, 1.0, 1e-9, 2.0 ** 32 - 5000.0])
         self.now = self.start
         self.min_seen = self.now
         self.max_seen = self.now
@@ -46,7 +48,10 @@ class SimClock(object):
             return float(int(self.now))
         elif m == "jump_fwd":
             if r.random() < 0.15:
-                self.now += r.choice((3600.0, 86400.0, 86400.0 * 365 * 3))
+                j = r.choice((3600.0, 86400.0, 86400.0 * 365 * 3))
+                if self.now + j > 4.2e9:          # stay inside epochs that fit a 32-bit seed (see "extreme")
+                    j = 3600.0 if self.now + 3600.0 < 4.29e9 else 0.0
+                self.now += j
                 self.ctx.fault("clock_jump_fwd")
             else:
                 self.now += 1e-3
@@ -57,6 +62,11 @@ class SimClock(object):
             else:
                 self.now += 1e-3
         return self.now
+
+    def __call__(self):
+        # `from time import time` binds the module attribute `time` of the library to the function: the seam then
+        # replaces a callable, so the clock is callable too
+        return self.time()
 
     def time(self):
         self.reads += 1
